@@ -157,6 +157,20 @@ fn dump_instance<'tcx>(cx: &mut Cx<'tcx>, w: &mut W, inst: Instance<'tcx>, id: u
     if let InstanceKind::DropGlue(_, None) = inst.def {
         w.kbool("drop_noop", true);
     }
+    if let (InstanceKind::Item(d), DefKind::Ctor(..)) = (inst.def, dk) {
+        // constructor function of a tuple struct / tuple variant: no MIR needed
+        let sig = tcx.fn_sig(d).instantiate(tcx, inst.args).skip_norm_wip();
+        let out = tcx.normalize_erasing_late_bound_regions(env(), sig.output());
+        if let ty::Adt(adt, _) = out.kind() {
+            let vi = adt.variant_index_with_ctor_id(d);
+            let tid = cx.ty_id(out);
+            w.key("ctor");
+            w.begin_obj();
+            w.knum("ty", tid);
+            w.knum("variant", vi.as_usize());
+            w.end_obj();
+        }
+    }
     {
         let (f, l, _) = cx.loc(tcx.def_span(def_id));
         w.kstr("file", &f);
@@ -377,6 +391,23 @@ fn dump_const_value<'tcx>(cx: &mut Cx<'tcx>, w: &mut W, val: ConstValue, ty: Ty<
             if matches!(ty.kind(), ty::Bool | ty::Char | ty::Int(_) | ty::Uint(_)) {
                 dump_scalar_int(w, ty, si);
                 return;
+            }
+        }
+        ConstValue::Scalar(mir::interpret::Scalar::Ptr(ptr, _)) => {
+            // reference to a (promoted) constant: dump the pointee
+            if let ty::Ref(_, inner, _) = ty.kind() {
+                if depth < 6 && inner.is_sized(tcx, env()) {
+                    let (prov, offset) = ptr.into_raw_parts();
+                    let alloc_id = prov.alloc_id();
+                    if let Some(rustc_middle::mir::interpret::GlobalAlloc::Memory(_)) = tcx.try_get_global_alloc(alloc_id) {
+                        w.begin_obj();
+                        w.kstr("k", "ref");
+                        w.key("to");
+                        dump_const_value(cx, w, ConstValue::Indirect { alloc_id, offset }, *inner, depth + 1);
+                        w.end_obj();
+                        return;
+                    }
+                }
             }
         }
         ConstValue::Slice { .. } => {
